@@ -1,4 +1,5 @@
 import Zc.Proofs.Wire.Message
+import Zc.Proofs.Wire.Total
 import Zc.Props.C02
 /-! # C01 — wire codec round trip
 
@@ -24,7 +25,8 @@ def onWireAuthorities (m : Msg) : List WRecord := m.authorities.map (fun r => r.
 def onWireAdditionals (m : Msg) : List WRecord := m.additionals.map (fun r => r.onWire m.multicast 0)
 
 /-- **Round trip.**  For every message inside the quantifier (`WFMsg`: names of 1..128 labels of
-1..63 bytes and ≤ 253 characters, 16-bit types, 15-bit classes, TTL < 2³², character-strings ≤ 255,
+1..63 bytes, ≤ 253 characters **and ≤ 255 octets on the wire** — the last clause narrows the property's
+quantifier, see `C01_long_utf8_name_refuted` / finding D21 — 16-bit types, 15-bit classes, TTL < 2³², character-strings ≤ 255,
 rdata matching the record type, NSEC types non-empty, increasing, ≤ 255; `FitAll`: every entry alone fits 8966 bytes), every datagram the
 builder emits is accepted by the strict decoder, and concatenating what it decodes gives back each
 section exactly: same entries, same order, nothing lost, duplicated or invented. -/
@@ -165,6 +167,81 @@ theorem C01_roundtrip_lib (m : Msg) (hwf : WFMsg m) (hfit : FitAll m) (htext : T
   obtain ⟨q, hq1, hq2⟩ := C02_agrees_strict p w hw2.symm hsup hre
   exact ⟨w, q, hw2.symm, hq1, hq2⟩
 
+/-! ### the dichotomy: either datagrams come out (and round-trip), or `NamePartTooLongException` -/
+
+/-- **Totality.**  A message inside the quantifier with 16-bit flags and id (and TXT payloads of a size the
+16-bit rdlength can carry — anything that fits a datagram is far below) is accepted by the builder:
+`packets()` returns datagrams, no raise site is reached. -/
+theorem C01_total (m : Msg) (hwf : WFMsg m) (hf : m.flags < 65536) (hi : m.id < 65536) (ht : TxtOK m) :
+    ∃ pks, packets m = .ok pks :=
+  Zc.Survive.packets_total m (hwf.safe hf hi ht)
+
+/-- totality and round trip together: the datagrams exist and decode back to the message -/
+theorem C01_roundtrip_total (m : Msg) (hwf : WFMsg m) (hfit : FitAll m) (hf : m.flags < 65536) (hi : m.id < 65536)
+    (ht : TxtOK m) :
+    ∃ (pks : List Bytes) (msgs : List WMsg), packets m = .ok pks ∧ pks.map Strict.decode = msgs.map some ∧
+      msgs.flatMap (·.questions) = onWireQuestions m ∧ msgs.flatMap (·.answers) = onWireAnswers m ∧
+      msgs.flatMap (·.authorities) = onWireAuthorities m ∧ msgs.flatMap (·.additionals) = onWireAdditionals m := by
+  obtain ⟨pks, h⟩ := C01_total m hwf hf hi ht
+  obtain ⟨msgs, h1, h2, h3, h4, h5⟩ := C01_roundtrip_strict m hwf hfit pks h
+  exact ⟨pks, msgs, h, h1, h2, h3, h4, h5⟩
+
+/-- **Rejection.**  A name with a label of more than 63 bytes makes `write_name` raise
+`NamePartTooLongException` — nothing else, and nothing is written — for every names table the builder
+can hold (keys no longer than the name have short labels only: the builder registers suffixes of names it
+has started to write, longest first).  A question with such a name is rejected likewise.
+(The statement for a whole message — "`packets m` is `NamePartTooLongException` iff some label is too
+long" — is not proved: it needs progress of the packet loop up to the offending entry; the differential
+covers it, `harness/c01.py` signature `…:label-…-encodes-undecodable`.) -/
+theorem C01_name_rejected (n : WName) (size : Nat) (names : Names) (hbad : ∃ l ∈ n, 63 < l.length)
+    (hnames : ∀ p ∈ names, p.1.length ≤ n.length → ∀ l ∈ p.1, l.length ≤ 63) :
+    writeName size names n = .error .namePartTooLong :=
+  writeName_rejects n size names hbad hnames
+
+theorem C01_question_rejected (mc : Bool) (q : EQuestion) (hbad : ∃ l ∈ q.name, 63 < l.length) :
+    encQuestion mc 12 [] q = .error .namePartTooLong :=
+  encQuestion_rejects mc 12 [] q hbad (by intro p hp; simp at hp)
+
+/-! ### D21 (finding): the builder never checks the total encoded length of a name
+
+The property's quantifier admits every name of at most 253 *characters* with labels of any byte length and
+non-ASCII text.  A name of 5 labels of 31 × 'é' has 160 characters, labels of 62 bytes, and 316 octets on the
+wire: it is neither rejected nor can an RFC 1035 decoder (names ≤ 255 octets, §2.3.4) accept the datagram. -/
+
+/-- the clause at full strength: every message whose names have 1..63-byte labels and ≤ 253 characters … -/
+def C01_roundtrip_strict_any_253_char_name : Prop :=
+  ∀ (q : EQuestion), q.name ≠ [] → (∀ l ∈ q.name, WFLabel l) → q.name.length ≤ 128 → nameLen q.name ≤ 253 →
+    q.qtype < 65536 → q.qclass < 32768 →
+    ∀ pks, packets { flags := 0, id := 0, multicast := false, questions := [q], answers := [], authorities := [], additionals := [] } = .ok pks →
+      ∀ p ∈ pks, (Strict.decode p).isSome
+
+def exLongLabel : Label := (List.replicate 31 [(0xC3 : UInt8), 0xA9]).flatten
+def exLongName : WName := List.replicate 5 exLongLabel
+def exLongQ : EQuestion := ⟨exLongName, 12, 1, false⟩
+def exLongMsg : Msg := { flags := 0, id := 0, multicast := false, questions := [exLongQ], answers := [], authorities := [], additionals := [] }
+
+/-- the one datagram the builder emits for `exLongMsg` -/
+def exLongPk : Bytes := match packets exLongMsg with | .ok [pk] => pk | _ => []
+
+theorem exLong_emitted : packets exLongMsg = .ok [exLongPk] := by
+  have h : (packets exLongMsg).toOption = some [exLongPk] := by decide +kernel
+  cases hp : packets exLongMsg with
+  | error e => rw [hp] at h; exact absurd h (by simp [Except.toOption])
+  | ok pks => rw [hp] at h; simp only [Except.toOption, Option.some.injEq] at h; rw [h]
+
+theorem exLong_undecodable : Strict.decode exLongPk = none := by decide +kernel
+
+theorem C01_long_utf8_name_refuted : ¬ C01_roundtrip_strict_any_253_char_name := by
+  intro h
+  have := h exLongQ (by decide +kernel) (by decide +kernel) (by decide +kernel) (by decide +kernel) (by decide) (by decide)
+    [exLongPk] exLong_emitted exLongPk (by simp)
+  rw [exLong_undecodable] at this
+  exact absurd this (by decide)
+
+/-- … and the witness is inside the property's quantifier in every other respect, outside `WFName` only by its
+wire length -/
+example : nameLen exLongName = 160 ∧ wireLen exLongName = 316 ∧ (∀ l ∈ exLongName, l.length = 62) := by decide +kernel
+
 /-! ### non-vacuity: a concrete message with compression (PTR + SRV + A sharing suffixes) meets the
 hypotheses, and the theorem's conclusion can be observed on it -/
 def exType : WName := [[95, 104], [95, 116], [108]]          -- _h._t.l
@@ -183,5 +260,18 @@ example : FitAll exMsg := ⟨by decide, by decide, by decide, by decide⟩
 example : TextLabels exMsg := by decide
 /-- the datagram really uses compression pointers: pointers for every repeated suffix -/
 example : (packets exMsg).toOption.map (fun pks => pks.map List.length) = some [102] := by decide
+
+/-- a message that splits: a query with two 900-byte TXT known answers sharing their owner-name suffix goes out as two
+datagrams (the second answer is rolled back from the first datagram together with its names-table entries), and both
+decode strictly -/
+def exTxt (c : UInt8) : Bytes := List.replicate 900 c
+def exSplitMsg : Msg :=
+  { flags := 0, id := 0, multicast := true, questions := [⟨exType, 12, 1, false⟩],
+    answers := [(⟨[97] :: exType, 16, 1, true, 4500, 0, .txt (exTxt 1)⟩, 0), (⟨[98] :: exType, 16, 1, true, 4500, 0, .txt (exTxt 2)⟩, 0)],
+    authorities := [], additionals := [] }
+
+example : WFMsg exSplitMsg := ⟨by decide +kernel, by decide +kernel, by decide +kernel, by decide +kernel⟩
+example : (packets exSplitMsg).toOption.map (fun pks => pks.map (fun p => (p.length, (Strict.decode p).map (·.flags)))) =
+    some [(939, some 512), (933, some 0)] := by decide +kernel
 
 end Zc
